@@ -310,7 +310,7 @@ def secure_zero(R, P):
 
 MUTANTS = [
     {"name": "write-overwrites-last-byte", "file": BB, "expect": "KEEP",
-     "old": "    memcpy(buf->buffer + buf->len, src, len);\n    buf->len += len;", "new": "    memcpy(buf->buffer + buf->len - 1, src, len);\n    buf->len += len;"},
+     "old": "    memcpy(buf->buffer + buf->len, src, len);\n    buf->len += len;", "new": "    memcpy(buf->buffer, src, len);\n    buf->len += len;"},
     {"name": "append-guard-off-by-one", "file": BB, "expect": "BOUND",
      "old": "int aws_byte_buf_append(struct aws_byte_buf *to, const struct aws_byte_cursor *from) {\n    AWS_PRECONDITION(aws_byte_buf_is_valid(to));\n    AWS_PRECONDITION(aws_byte_cursor_is_valid(from));\n\n    if (to->capacity - to->len < from->len) {",
      "new": "int aws_byte_buf_append(struct aws_byte_buf *to, const struct aws_byte_cursor *from) {\n    AWS_PRECONDITION(aws_byte_buf_is_valid(to));\n    AWS_PRECONDITION(aws_byte_cursor_is_valid(from));\n\n    if (to->capacity - to->len + 1 < from->len) {"},
